@@ -29,6 +29,10 @@ pub struct LRow {
     /// the integer value is negative
     #[serde(default)]
     pub ineg: bool,
+    /// the row lies right at the merge point: exactly at it (`after`) or one nanosecond before it
+    /// (only where the check knows the merge instant exactly, i.e. not through the executor)
+    #[serde(default)]
+    pub edge: bool,
 }
 
 #[derive(Clone, Debug, Serialize, Deserialize)]
@@ -146,9 +150,19 @@ fn schema(ts_type: u8) -> SchemaRef {
     ]))
 }
 
-fn build(ts_type: u8, b: &LBatch, merge: i64, rid0: i64) -> RecordBatch {
+fn build(ts_type: u8, b: &LBatch, merge: i64, rid0: i64, exact_merge: bool) -> RecordBatch {
     let hour = 3_600_000_000_000i64;
-    let ts: Vec<i64> = b.rows.iter().enumerate().map(|(k, r)| if r.after { merge + hour + k as i64 } else { merge - hour - k as i64 }).collect();
+    let ts: Vec<i64> = b
+        .rows
+        .iter()
+        .enumerate()
+        .map(|(k, r)| match (r.after, r.edge && exact_merge) {
+            (true, true) => merge,
+            (false, true) => merge - 1,
+            (true, false) => merge + hour + k as i64,
+            (false, false) => merge - hour - k as i64,
+        })
+        .collect();
     let cols: Vec<ArrayRef> = vec![
         if ts_type % 2 == 0 { Arc::new(Int64Array::from(ts)) as ArrayRef } else { Arc::new(TimestampNanosecondArray::from(ts).with_timezone("UTC")) as ArrayRef },
         Arc::new(StringArray::from(b.rows.iter().map(|r| METRICS[r.metric as usize % 3]).collect::<Vec<_>>())),
@@ -204,12 +218,12 @@ fn sig_tags(f: &WFlags) -> String {
 }
 
 /// expected delivered rids per batch (rows at/after merge that satisfy WHERE)
-async fn expected(case: &Case, merge: i64, where_sql: &str) -> Result<(Vec<RecordBatch>, Vec<Vec<i64>>), String> {
+async fn expected(case: &Case, merge: i64, where_sql: &str, exact_merge: bool) -> Result<(Vec<RecordBatch>, Vec<Vec<i64>>), String> {
     let mut rid = 0i64;
     let mut batches = Vec::new();
     let mut exp = Vec::new();
     for b in &case.batches {
-        let rb = build(case.ts_type, b, merge, rid);
+        let rb = build(case.ts_type, b, merge, rid, exact_merge);
         let sel = reference_rids(&rb, where_sql).await?;
         let after: Vec<i64> = b.rows.iter().enumerate().filter(|(_, r)| r.after).map(|(k, _)| rid + k as i64).collect();
         exp.push(sel.into_iter().filter(|r| after.contains(r)).collect());
@@ -237,6 +251,9 @@ fn classify(case: &Case, f: &WFlags, exp: &[Vec<i64>], out: &mut Outcome) {
     if mixed {
         out.class("batch-with-matching-and-non-matching-rows");
     }
+    if case.batches.iter().any(|b| b.rows.iter().any(|r| r.edge)) {
+        out.class("rows-exactly-at-or-one-ns-before-the-merge-point");
+    }
     if case.batches.windows(2).any(|w| w[0].layout % 4 != w[1].layout % 4) {
         out.class("column-layout-changes-between-flushes");
     }
@@ -250,7 +267,7 @@ pub fn exec_direct(case: &Case) -> Outcome {
         let where_sql = w_sql(&case.w, &mut f);
         let sql = format!("SELECT * FROM metrics WHERE {}", where_sql);
         let merge = 1_700_000_000_000_000_000i64;
-        let (batches, exp) = match expected(case, merge, &where_sql).await {
+        let (batches, exp) = match expected(case, merge, &where_sql, true).await {
             Ok(x) => x,
             Err(e) => {
                 out.class("reference-error");
@@ -300,7 +317,7 @@ pub fn exec_executor(case: &Case) -> Outcome {
         let tchan = TopicBroadcastChannel::new(256);
         let before = chrono::Utc::now().timestamp_nanos_opt().unwrap();
         let merge = before; // rows are +-1 h away from the merge instant: the exact value does not matter
-        let (batches, exp) = match expected(case, merge, &where_sql).await {
+        let (batches, exp) = match expected(case, merge, &where_sql, false).await {
             Ok(x) => x,
             Err(_) => {
                 out.class("reference-error");
@@ -485,7 +502,7 @@ pub fn exec_topic(case: &TopicCase) -> Outcome {
 // ---- generators ------------------------------------------------------------------
 
 fn lrow() -> impl Strategy<Value = LRow> {
-    (prop::bool::weighted(0.7), 0u8..3, prop::option::weighted(0.85, 0u8..4), prop::option::weighted(0.85, -12i8..12), prop::option::weighted(0.85, 0u8..8), prop::bool::weighted(0.35)).prop_map(|(after, metric, host, f, i, ineg)| LRow { after, metric, host, f, i, ineg })
+    (prop::bool::weighted(0.7), 0u8..3, prop::option::weighted(0.85, 0u8..4), prop::option::weighted(0.85, -12i8..12), prop::option::weighted(0.85, 0u8..8), prop::bool::weighted(0.35), prop::bool::weighted(0.25)).prop_map(|(after, metric, host, f, i, ineg, edge)| LRow { after, metric, host, f, i, ineg, edge })
 }
 
 fn leaf(core_only: bool) -> BoxedStrategy<Leaf> {
